@@ -1,6 +1,7 @@
 (* C17 — theory, part 2: the byte level (encoders and the readers' inverse laws) and the dispatch
    law that follows from the finite table check. *)
 From FB Require Import C17.Model C17.Theory.
+From FB Require Export C17.Struct.
 
 Arguments N.add : simpl never.
 Arguments N.mul : simpl never.
@@ -8,9 +9,6 @@ Arguments N.div : simpl never.
 Arguments N.modulo : simpl never.
 
 (* ---------- encoders ---------- *)
-Definition e16 (n : N) : bytes := [n / 256; n mod 256].
-Definition e32 (n : N) : bytes := e16 (n / 65536) ++ e16 (n mod 65536).
-Definition elen {A} (l : list A) : N := N.of_nat (length l).
 
 Lemma rd16_e16 n r : rd16 (e16 n ++ r) = Ok (n, r).
 Proof.
